@@ -74,7 +74,7 @@ def run(chk):
     thorough = chk.tier == "thorough"
     model_check(chk, [("Neg_Dedisp_cropsign.cfg", "RealignDecl"), ("Neg_Dedisp_nostart.cfg", "StartAdvance")])
     gen_replay(chk, rnd)
-    n_law, n_inc, n_lseq, n_iseq = (16000, 7000, 1500, 800) if thorough else (1000, 550, 120, 70)
+    n_law, n_inc, n_lseq, n_iseq = (14000, 7000, 1200, 800) if thorough else (800, 550, 90, 70)
     cases = [D.gen_law_case(rnd) for _ in range(n_law)]
     for i in range(n_inc):
         c = D.gen_incoh_case(rnd, i)
@@ -82,6 +82,8 @@ def run(chk):
         cases.append(c)
     # sessions: one DM object stepped in place between calls; one signal object dedispersed several times
     cases += [D.gen_lawseq_case(rnd) for _ in range(n_lseq)]
+    # the same frequency-array objects handed to several calls, judged against their values before the first call
+    cases += [D.gen_lawarr_case(rnd) for _ in range(n_lseq)]
     cases += [D.gen_incohseq_case(rnd, i) for i in range(n_iseq)]
     events = D.collect(cases, chk)
     D.judge(chk, events, cases, "C06", jobs=8, timeout=6000 if chk.tier == "thorough" else 1500)
